@@ -336,6 +336,24 @@ def chain_roundtrip(led, x, model, fname, key, rep, ops, nontriv, fn="Mps.load",
     if hasattr(x, "coeff"):
         led.check(cbits(getattr(l, "coeff", None), x.coeff), f"post:{fn}:coeff", fn, f"coeff {getattr(l, 'coeff', None)!r} after load, was {x.coeff!r}",
                   key, fields, rep, nontriv)
+    # files of the previous protocol: the loader treats "0.3" like "0.4"; a 0.3 file is a 0.4 file without the per-bond `subqn_i` arrays (the labels are
+    # in the pickled `qn` list in both).  It must come back as the same object.
+    if ver == "0.4" and cls.__name__ in ("Mps", "MpDm"):
+        try:
+            raw = dict(np.load(fname, allow_pickle=True))
+            raw = {k_: v_ for k_, v_ in raw.items() if not k_.startswith("subqn_")}
+            raw["version"] = "0.3"
+            old_name = fname[:-4] + ".v03.npz"
+            np.savez(old_name, **raw)
+            lo = cls.load(model, old_name)
+            os.remove(old_name)
+            same = (len(lo) == n and all(bits(lo[i].array, x[i].array) for i in range(n)) and qn_equal(lo.qn, x.qn) and int(lo.qnidx) == int(x.qnidx)
+                    and np.array_equal(np.asarray(lo.qntot).reshape(-1), np.asarray(x.qntot).reshape(-1)) and bool(lo.to_right) == bool(x.to_right)
+                    and cbits(getattr(lo, "coeff", None), x.coeff))
+            led.check(same, f"post:{fn}:file_of_protocol_0.3_loads_identically", fn, "a protocol-0.3 file (the same data without the subqn_i arrays) does not come back as the dumped "
+                      f"object: qn {[np.asarray(q).shape for q in lo.qn]} vs {[np.asarray(q).shape for q in x.qn]}", key + ("v03",), fields, rep, nontriv)
+        except Exception as e:
+            led.check(False, f"post:{fn}:file_of_protocol_0.3_loads_identically", fn, f"loading a protocol-0.3 file raised {type(e).__name__}: {e}", key + ("v03",), fields, rep, nontriv)
     l_before = l.copy()
     later_ops(led, f"post:{fn}:later_op_identical", fn, ops, x, l, key, fields, rep, nontriv, scale)
     d = chain_diff(l_before, l)
